@@ -18,6 +18,10 @@ import (
 	"time"
 
 	"github.com/btcsuite/btcd/btcec/v2"
+	ariesdid "github.com/trustbloc/did-go/doc/did"
+	"github.com/trustbloc/did-go/doc/did/endpoint"
+	vdrapi "github.com/trustbloc/did-go/vdr/api"
+	"github.com/trustbloc/sidetree-go/pkg/vdr/sidetreelongform"
 	"github.com/trustbloc/sidetree-go/pkg/api/operation"
 	"github.com/trustbloc/sidetree-go/pkg/api/protocol"
 	"github.com/trustbloc/sidetree-go/pkg/canonicalizer"
@@ -436,6 +440,71 @@ func main() {
 		}
 		stopWD()
 		emit(result{Scenario: "clientregistry", Calls: *trials * 20 * 8 * 2, Mismatches: mism, Detail: detail})
+	}
+	// VDR: many Create calls in flight on one VDR at the same moment (each is held, inside Create, until
+	// all have been entered), and Read calls next to them: every call returns, with the DID that the same
+	// call gives alone
+	{
+		const inflight = 48
+		stopWD := watchdog("vdr-simultaneous-creates", inflight)
+		v, err := sidetreelongform.New()
+		if err != nil {
+			panic(err)
+		}
+		mkDoc := func(i int) *ariesdid.Doc {
+			return &ariesdid.Doc{Service: []ariesdid.Service{{ID: fmt.Sprintf("svc%d", i), Type: "type",
+				ServiceEndpoint: endpoint.NewDIDCommV1Endpoint(fmt.Sprintf("https://example.com/%d", i))}}}
+		}
+		keyOpts := func(i int) []vdrapi.DIDMethodOption {
+			seed := make([]byte, ed25519.SeedSize)
+			seed[0], seed[1] = byte(i), 7
+			k1 := ed25519.NewKeyFromSeed(seed)
+			seed[2] = 1
+			k2 := ed25519.NewKeyFromSeed(seed)
+			return []vdrapi.DIDMethodOption{vdrapi.WithOption(sidetreelongform.UpdatePublicKeyOpt, k1.Public().(ed25519.PublicKey)),
+				vdrapi.WithOption(sidetreelongform.RecoveryPublicKeyOpt, k2.Public().(ed25519.PublicKey))}
+		}
+		expected := make([]string, inflight)
+		for i := range expected {
+			if res, e := v.Create(mkDoc(i), keyOpts(i)...); e == nil && res != nil && res.DIDDocument != nil {
+				expected[i] = res.DIDDocument.ID
+			}
+		}
+		var entered sync.WaitGroup
+		entered.Add(inflight)
+		hold := func(*vdrapi.DIDMethodOpts) {
+			entered.Done()
+			entered.Wait()
+		}
+		got := make([]string, inflight)
+		var wg sync.WaitGroup
+		for i := 0; i < inflight; i++ {
+			wg.Add(1)
+			go func(i int) {
+				defer wg.Done()
+				defer func() { recover() }()
+				if res, e := v.Create(mkDoc(i), append(keyOpts(i), hold)...); e == nil && res != nil && res.DIDDocument != nil {
+					got[i] = res.DIDDocument.ID
+				}
+				if expected[i] != "" {
+					if rd, e := v.Read(expected[i]); e != nil || rd == nil || rd.DIDDocument == nil || rd.DIDDocument.ID != expected[i] {
+						got[i] = "read failed"
+					}
+				}
+			}(i)
+		}
+		wg.Wait()
+		stopWD()
+		mism, detail := 0, ""
+		for i := range got {
+			if got[i] != expected[i] || got[i] == "" {
+				mism++
+				if detail == "" {
+					detail = fmt.Sprintf("create %d: alone %.80s, with %d others in flight %.80s", i, expected[i], inflight-1, got[i])
+				}
+			}
+		}
+		emit(result{Scenario: "vdr-simultaneous-creates", Calls: 2 * inflight, Mismatches: mism, Detail: detail})
 	}
 	fmt.Fprintf(os.Stderr, "vstress done GOMAXPROCS=%d\n", runtime.GOMAXPROCS(0))
 }
